@@ -74,8 +74,9 @@ EXTRA = {
  "C04": SETTERS,
  "C05": SETTERS + " The FCI trait contract assumed at packet level (announces S, writes exactly S) is discharged here for every FCI builder; the NACK word generator is also executed exactly on one- and two-element request sets (every distance 1..=16 and beyond), and after a flush the base must be the number that did not fit.",
  "C07": SETTERS + " The NACK encoder rules of C05 (step relation, post-state, exact small request sets) are evaluated here as well.",
- "C10": " The eight public SDES item-type constants equal RFC 3550's numbers; every chunk the walk parses is appended once to the list Sdes::chunks() traverses from its first element.",
+ "C10": " The eight public SDES item-type constants equal RFC 3550's numbers; every chunk the walk parses is appended once to the list Sdes::chunks() traverses from its first element; the item list ends at the first null (a loop stepping over null bytes parses nothing else).",
  "C14": " add_packet appends exactly its argument (setter rules shared with C20).",
+ "C16": " The setter rules shared with C20 are evaluated here for every builder (a configuration is what the public setters were given).",
  "C20": " Every argument of every by-value builder method reaches the configuration (a setter that does not set, an adder that does not add, is reported).",
  "C09": " Undischarged overflow/division obligations of the parser and of the accessors compared are reported here as well.",
  "C13": " Undischarged overflow/division obligations met while interpreting the parser are reported here as well.",
